@@ -3,6 +3,7 @@ package modelgen
 import (
 	"fmt"
 	"sort"
+	"strconv"
 	"strings"
 	"text/template"
 
@@ -185,6 +186,8 @@ func NewTableTemplate() *template.Template {
 	return template.Must(template.New("").Funcs(
 		template.FuncMap{
 			"PrintVal":           printVal,
+			"AtomicType":         AtomicType,
+			"EnumMemberName":     enumMemberName,
 			"FieldName":          FieldName,
 			"FieldType":          FieldType,
 			"FieldTypeWithEnums": FieldTypeWithEnums,
@@ -213,7 +216,7 @@ const {{ index . "StructName" }}Table = "{{ index . "TableName" }}"
 {{ if index . "Enums" }}
 type (
 {{ range index . "Enums" }}
-{{ .Alias }} = {{ .Type }}
+{{ .Alias }} = {{ AtomicType .Type }}
 {{- end }}
 )
 
@@ -221,7 +224,7 @@ var (
 {{ range  index . "Enums" }}
 {{- $e := . }}
 {{- range .Sets }}
-{{ $e.Alias }}{{ FieldName . }} {{ $e.Alias }} = {{ PrintVal . $e.Type }}
+{{ $e.Alias }}{{ EnumMemberName . }} {{ $e.Alias }} = {{ PrintVal . (AtomicType $e.Type) }}
 {{- end }}
 {{- end }}
 )
@@ -485,9 +488,28 @@ func expandInitilaisms(s string) string {
 	return s
 }
 
+// enumMemberName returns the suffix that names an enum member: the camel-cased
+// string, or the digits of a number ("Neg" for a sign, "_" for the decimal point)
+func enumMemberName(v interface{}) string {
+	var s string
+	switch n := v.(type) {
+	case string:
+		return FieldName(n)
+	case float64:
+		s = strconv.FormatFloat(n, 'f', -1, 64)
+	default:
+		s = fmt.Sprint(v)
+	}
+	return strings.NewReplacer("-", "Neg", ".", "_", "+", "").Replace(s)
+}
+
 func printVal(v interface{}, t string) string {
 	switch t {
 	case "int":
+		if f, ok := v.(float64); ok {
+			// numbers of a schema are decoded as float64
+			return strconv.FormatInt(int64(f), 10)
+		}
 		return fmt.Sprintf(`%d`, v)
 	case "float64":
 		return fmt.Sprintf(`%f`, v)
